@@ -7,7 +7,7 @@ import reactivex
 from reactivex import operators as ops
 
 from vlib.core import FAIL, OK, SKIP, Check, HarnessError
-from vlib.hoc import POLICIES, TSource, all_subs, compare_union, exact_trace, draw_outer, inner_specs, max_overlap, saturated_case, simulate
+from vlib.hoc import POLICIES, TSource, all_subs, compare_union, exact_trace, draw_outer, draw_second, inner_specs, max_overlap, saturated_case, second_tick, simulate, subs_cover
 from vlib.lab import Lab
 
 PROPERTY_ID = "C11"
@@ -28,7 +28,9 @@ RULE = (
     "error instant other inners' same-instant elements are optional); from the logs: inner subscriptions (before the "
     "terminal) happen in the expected order at the expected ticks (arrival order for queued inners) and at most "
     "max_concurrent are active at once. Queued same-instant ties are accepted under any of the consistent orders "
-    "fifo / outer-first / inner-first. Non-trivial: >= 2 inner subscriptions with overlapping lifetimes, or an inner was queued."
+    "fifo / outer-first / inner-first. In about a third of the cases (all sources cold/synchronous) the SAME built "
+    "observable is subscribed a second time - after the first subscription terminated, or overlapping it - and the second "
+    "probe (and the first) is judged by the same oracle with its own subscribe tick. Non-trivial: >= 2 inner subscriptions with overlapping lifetimes, or an inner was queued."
 )
 ASSUMPTIONS = [
     "inner sources are conforming; a subscription counts as active until its own terminal was delivered or it was unsubscribed",
@@ -90,13 +92,16 @@ def build(case, lab, inners):
     return outer.pipe(op), outer
 
 
-def _judge(case, op, p, inners, maxc):
-    """Compare one reference outcome with the real run. Returns None or (clause, message)."""
+def _judge(case, op, p, subs, maxc, logs=True):
+    """Compare one reference outcome with the real run. Returns None or (clause, message).
+    subs: the inner subscriptions attributable to this top-level subscription (logs=True) or all of them (logs=False:
+    overlapping top-level subscriptions, only 'every expected inner subscription happened' is required)."""
     bad = compare_union(op, case["inners"], p.events, lambda c: c[1] // 100)
     if bad:
         return bad
+    if not logs:
+        return subs_cover(op, subs)
     tseq = p.terminal()[3] if p.terminal() else None
-    subs = all_subs(inners)
     before = [d for d in subs if tseq is None or d["sub_seq"] < tseq]
     got = [(d["src"], d["sub"]) for d in before]
     exp = [(op.arrivals[j]["src"], op.arrivals[j]["sub"]) for j in op.started]
@@ -121,38 +126,71 @@ def _run(case):
     form = case["form"]
     maxc = _maxc(case)
     t0 = case["t0"]
+    sec = case.get("second")
+    mode2 = t2 = None
+    if sec:
+        ref = simulate(_outer_spec(case), case["inners"], _resolver(case), t0, "fifo", "merge", maxc)
+        mode2, t2 = second_tick(sec, t0, ref.term[0] if ref.term else None)
     lab = Lab()
     inners = [TSource(lab, spec, f"i{i}") for i, spec in enumerate(case["inners"])]
     o, outer = build(case, lab, inners)
     p = lab.probe()
-    lab.at(t0, lambda: p.subscribe(o, scheduler="lab" if case.get("sched", "lab") == "lab" else None))
+    sch = "lab" if case.get("sched", "lab") == "lab" else None
+    lab.at(t0, lambda: p.subscribe(o, scheduler=sch))
+    p2 = None
+    s2 = [None]
+    if sec:
+        p2 = lab.probe("p2")
+
+        def sub2():
+            s2[0] = lab.next_seq()
+            p2.subscribe(o, scheduler=sch)
+
+        lab.at(t2, sub2)
     lab.run()
     if lab.inconclusive:
         return SKIP(lab.inconclusive)
     if lab.escaped is not None:
         raise lab.escaped
-    ok_g, msg = p.grammar_ok()
-    who = form if maxc is None or form == "concat_map" else f"{form}"
-    if not ok_g:
-        return FAIL(f"grammar|{who}", f"{msg} case={case}")
-
-    first_bad = None
+    who = form
+    for q in (p, p2):
+        if q is not None:
+            ok_g, msg = q.grammar_ok()
+            if not ok_g:
+                return FAIL(f"grammar|{who}", f"{msg} case={case}")
+    subs = all_subs(inners)
+    separable = True
+    if sec:
+        # the log can be attributed per top-level subscription only if the first one was over before the second began
+        separable = mode2 == "after" and p.terminal() is not None and p.terminal()[3] < s2[0]
+    plan = [(p, t0, [d for d in subs if not sec or not separable or d["sub_seq"] < s2[0]], "" if not sec else ":1st-of-2-subscriptions")]
+    if sec:
+        plan.append((p2, t2, [d for d in subs if not separable or d["sub_seq"] > s2[0]], ":2nd-subscription"))
     chosen = None
-    for pol in POLICIES:
-        op = simulate(_outer_spec(case), case["inners"], _resolver(case), t0, pol, "merge", maxc)
-        bad = _judge(case, op, p, inners, maxc)
-        if bad is None:
-            chosen = (pol, op)
-            break
-        if first_bad is None:
-            first_bad = (bad, op)
-    if chosen is None:
-        (clause, msg), op = first_bad
-        return FAIL(f"{clause}|{who}", f"{msg}; expected trace {exact_trace(op)} got {p.trace()} case={case}")
+    for q, tq, qsubs, suffix in plan:
+        first_bad = None
+        got_ok = None
+        for pol in POLICIES:
+            op = simulate(_outer_spec(case), case["inners"], _resolver(case), tq, pol, "merge", maxc)
+            bad = _judge(case, op, q, qsubs, maxc, logs=separable)
+            if bad is None:
+                got_ok = (pol, op)
+                break
+            if first_bad is None:
+                first_bad = (bad, op)
+        if got_ok is None:
+            (clause, msg), op = first_bad
+            return FAIL(f"{clause}|{who}{suffix}", f"{msg}; expected trace {exact_trace(op)} got {q.trace()} (subscribed at {tq}) case={case}")
+        if chosen is None:
+            chosen = got_ok
     pol, op = chosen
 
     # evidence classes
     cls = [form, "policy:" + pol]
+    if sec:
+        cls.append("2nd-subscription:" + mode2 + ("" if separable or mode2 == "overlap" else "(first-still-running)"))
+        if p2.events:
+            cls.append("2nd-subscription:saw-events")
     if exact_trace(op) == p.trace():
         cls.append("exact-order")
     started = [op.arrivals[j] for j in op.started]
@@ -174,7 +212,7 @@ def _run(case):
         cls.append("dequeued-inner-completes-in-subscribe:outer-done+queue-empty")
     if maxc is not None:
         cls.append(f"maxc={maxc}")
-        if max_overlap(all_subs(inners)) == maxc:
+        if max_overlap(plan[0][2]) == maxc:
             cls.append("limit-reached")
     if op.term is None:
         cls.append("ends-open")
@@ -219,7 +257,7 @@ def _cases(draw, forms, big=False):
             c["maxc"] = draw(st.sampled_from([1, 2, 2, 3, 1, 4]))
         if form == "flat_map_const":
             c["const"] = draw(st.integers(0, len(inn) - 1))
-    return c
+    return draw_second(draw, c)
 
 
 @st.composite
@@ -229,7 +267,7 @@ def _saturated(draw):
     c = {"form": form, "inners": sc["inners"], "t0": draw(st.integers(0, 3)), "outer": sc["outer"]}
     if form == "merge_mc":
         c["maxc"] = sc["maxc"]
-    return c
+    return draw_second(draw, c)
 
 
 def checks(tier):
